@@ -178,12 +178,32 @@ RefFile(sub, v) == <<"[", "k", "sp", "q">> \o EscSub(sub) \o <<"q", "]", "nl", "
 BodyPre == <<"[", "k", "]", "nl">>
 HeadSuf == <<"nl", "k", "=", "x", "nl">>
 SubPre  == <<"[", "k", "sp", "q">>
+\* D2c: two subsection headers in one file -- the same or different section (k / n), the same or different subsection name
+\* (k, K, xk), directly after each other or with a subsection-less section (with or without an option) in between.  The
+\* meaning of a file is judged per variable: every (section.subsection.key) with its ordered values (ByKey).
+Hdr(sec, sub) == <<"[", sec, "sp", "q">> \o sub \o <<"q", "]", "nl">>
+Plain(sec)    == <<"[", sec, "]", "nl">>
+Opt(key, val) == <<key, "=", val, "nl">>
+Secs == {"k", "n"}
+Subs == {<<"k">>, <<"K">>, <<"x", "k">>}
+Mids == {<<>>} \cup {Plain(sc) : sc \in Secs} \cup {Plain(sc) \o Opt("k", "d") : sc \in Secs}
+MultiRecs == {[f     |-> Hdr(s1, u1) \o Opt("k", "x") \o mid \o Hdr(s2, u2) \o Opt("n", "d"),
+               shape |-> (IF u1 = u2 /\ s1 # s2 THEN {"subsection-name-reused"} ELSE {}) \cup
+                         (IF u1 = u2 /\ s1 = s2 THEN {"subsection-reopened"} ELSE {}) \cup
+                         (IF mid # <<>> THEN {"plain-section-between"} ELSE {}) \cup {"two-subsections"}] :
+                 s1 \in Secs, s2 \in Secs, u1 \in Subs, u2 \in Subs, mid \in Mids}
+MultiFiles == {m.f : m \in MultiRecs}
+ShapeOf(f) == UNION {m.shape : m \in {mm \in MultiRecs : mm.f = f}}
+ByKey(ents) == LET ks == {ents[j].k : j \in 1..Len(ents)} IN
+               SetToSeq({[k |-> key, vs |-> LET hit == SelectSeq(ents, LAMBDA e : e.k = key) IN [j \in 1..Len(hit) |-> hit[j].v]] : key \in ks})
 Files == {BodyPre \o b : b \in Over(BodyAlpha, BodyLen)} \cup {<<"[">> \o h \o HeadSuf : h \in Over(HeadAlpha, HeadLen)}
-         \cup {SubPre \o h \o HeadSuf : h \in Over(SubAlpha, SubLen)}
+         \cup {SubPre \o h \o HeadSuf : h \in Over(SubAlpha, SubLen)} \cup MultiFiles
 Vals  == Over(ValAlpha, ValLen)
 
 Row(f) == LET r == ParseFile(f) IN
-          [f |-> f, err |-> r.err, ents |-> IF r.err THEN <<>> ELSE r.ents, tags |-> SetToSortSeq(r.tags, LAMBDA a, b : TRUE)]
+          [f |-> f, err |-> r.err, ents |-> IF r.err THEN <<>> ELSE r.ents,
+           multi |-> f \in MultiFiles, bykey |-> IF r.err THEN <<>> ELSE ByKey(r.ents),
+           tags |-> SetToSortSeq(r.tags \cup (IF f \in MultiFiles THEN ShapeOf(f) ELSE {}), LAMBDA a, b : TRUE)]
 \* write side: a value (as option value and as subsection name) and what must be read back
 WRow(v) == [v |-> v, tabfree |-> \A j \in 1..Len(v) : v[j] # "tab"]
 
@@ -253,6 +273,11 @@ SetThenGet == kind = "edit" =>
    LET after == SetAll(str.file, str.var, str.new) IN
    /\ GetAll(after, str.var) = str.new
    /\ \A v \in EditVars \ {str.var} : GetAll(after, v) = GetAll(str.file, v)
+\* a variable belongs to the header that precedes it: the two options of a two-header file are reported under their own headers
+TwoHeaders == (kind = "file" /\ str \in MultiFiles) =>
+   /\ ~P.err
+   /\ Len(P.ents) >= 2 /\ P.ents[1].v = <<"x">> /\ P.ents[Len(P.ents)].v = <<"d">>
+   /\ P.ents[1].k[1] = str[2] /\ P.ents[1].k[Len(P.ents[1].k)] = "k" /\ P.ents[Len(P.ents)].k[Len(P.ents[Len(P.ents)].k)] = "n"
 RefRoundTrip == kind = "val" =>
    LET sub == IF \A j \in 1..Len(str) : str[j] # "nl" THEN str ELSE <<>>     \* a subsection name cannot hold a newline
        R   == ParseFile(RefFile(sub, str))
